@@ -82,6 +82,7 @@ static void check_table(unsigned mask, const unsigned type[2], const char *what_
     for (k = 0; k < 2; k++) {
         struct iauth_xquery_service *s = find_srv(sname[k]);
         int want_cfg = (mask & (1u << k)) && type[k] < 4;
+        VP_ASSERT(s == NULL || s->configured || s->refs > 0, "a service nobody configures and nobody waits for is released");
         VP_ASSERT((s != NULL && s->configured) == want_cfg, "a service is queried exactly when the current file lists it with a known protocol");
         if (want_cfg && s && s->configured)
             VP_ASSERT((unsigned)s->type == type[k], "a service is queried with the protocol the current file gives it");
@@ -102,6 +103,15 @@ void harness(void)
     load(VP_M0, t0);                               /* start-up: file, then modules */
     xquery_module_constructor("iauth_xquery");
     check_table(VP_M0, t0, "start", "start");
+    /* clients registering at the moment of the reload: each service may be owed-to by 0..2 of them */
+    {
+        unsigned k;
+        for (k = 0; k < 2; k++) {
+            struct iauth_xquery_service *sv = find_srv(sname[k]);
+            if (sv)
+                sv->refs = vp_range(0, 2);
+        }
+    }
 
     load(VP_M1, t1);                               /* SIGUSR1 */
     check_table(VP_M1, t1, "reload", "reload");
